@@ -227,6 +227,47 @@ def history(h):
                             if isinstance(t, ast.Subscript) and isinstance(t.value, ast.Name) and t.value.id == p:
                                 muts.append(f"del {p}[...]@{n.lineno}")
                 h.ensures(f"mutable_default_not_mutated[{'.'.join(q.split('.')[-2:])}({p})]", not muts, why=str(muts), replay=lambda ev: {"target": "verif_replays:mutable_defaults_replay", "args": [], "check": "result['exc'] is None and result['ok']"})
+    # (1b) no function of the package writes into a MODULE-LEVEL object (a cache, a registry, a counter): such state
+    # survives the run and makes the next run with equal arguments depend on the previous one
+    reach, todo = set(), [idx.fns[e] for e in ENTRIES if e in idx.fns]
+    while todo:
+        f0 = todo.pop()
+        if f0.qual in reach:
+            continue
+        reach.add(f0.qual)
+        for call in [n for n in ast.walk(f0.node) if isinstance(n, ast.Call)]:
+            for callee in idx.resolve(call, f0):
+                if callee.qual not in reach:
+                    todo.append(callee)
+    h.ensures("call_graph_from_the_entry_points_not_empty", len(reach) >= 40, why=f"{len(reach)} functions reachable (by-name resolution, over-approximate)")
+    for q, fi in sorted(idx.fns.items()):
+        if q not in reach:
+            continue  # e.g. logger.initialize_logging (command line set-up) configures module-level state by design
+        mod_names = set(getattr(fi.mod, "assigns", {}).keys())
+        local = set(fi.params)
+        for n in ast.walk(fi.node):
+            if isinstance(n, (ast.Assign, ast.AnnAssign, ast.AugAssign, ast.For, ast.With, ast.comprehension)):
+                tg = n.targets if isinstance(n, ast.Assign) else [getattr(n, "target", None)] if not isinstance(n, ast.With) else [i.optional_vars for i in n.items]
+                for t in tg:
+                    for m_ in ast.walk(t) if t is not None else []:
+                        if isinstance(m_, ast.Name) and isinstance(m_.ctx, ast.Store):
+                            local.add(m_.id)
+        declared_global = {g for n in ast.walk(fi.node) if isinstance(n, ast.Global) for g in n.names}
+        writes = []
+        for n in ast.walk(fi.node):
+            if isinstance(n, (ast.Assign, ast.AugAssign)):
+                tg = n.targets if isinstance(n, ast.Assign) else [n.target]
+                for t in tg:
+                    base = t
+                    while isinstance(base, (ast.Subscript, ast.Attribute)):
+                        base = base.value
+                    if isinstance(base, ast.Name) and base.id in mod_names and (base is not t or base.id in declared_global) and (base.id not in local or base.id in declared_global):
+                        writes.append(f"{ast.unparse(t)} = ... @{n.lineno}")
+            if isinstance(n, ast.Call) and isinstance(n.func, ast.Attribute) and isinstance(n.func.value, ast.Name) and n.func.value.id in mod_names and n.func.value.id not in local and n.func.attr in ("setdefault", "update", "append", "extend", "pop", "clear", "insert", "remove", "popitem", "add", "sort", "reverse"):
+                writes.append(f"{n.func.value.id}.{n.func.attr}(...) @{n.lineno}")
+        if writes or declared_global:
+            h.ensures(f"no_module_level_state_written[{'.'.join(q.split('.')[-2:])}]", not writes and not declared_global, why=str(writes or sorted(declared_global)), replay=lambda ev: {"target": "verif_replays:repeat_bootstrap_run_replay", "args": [], "check": "result['exc'] is None and result['ok']"})
+    h.ensures("module_level_state_scan_covers_the_package", len(idx.fns) >= 100, why=f"{len(idx.fns)} functions in the package")
     # (2) the client's fields: in get_estimates every field is written before it is read
     loads, stores = {}, {}
     for n in ast.walk(fs.node):
